@@ -94,8 +94,8 @@ static void array_scenario(Report& rep, const char* name, uint64_t seed, int op)
 
 // ---- stdish ------------------------------------------------------------------------------------------
 // insert(node_type&&) of unique containers returns insert_return_type whose .node holds a refused element
-template<typename R, typename Rec> static auto rec_node(R& res, Rec& rec, int) -> decltype((void)res.node) { rec(res.node); }
-template<typename R, typename Rec> static void rec_node(R&, Rec&, long) {}
+template<typename R, typename Rec> static auto rec_node(R& res, Rec& rec, int) -> decltype((void)res.node, bool()) { rec(res.node); return res.inserted || !res.node.empty(); }
+template<typename R, typename Rec> static bool rec_node(R&, Rec&, long) { return true; }
 template<typename E> using SA = kit::StdAlloc<E>;
 template<typename E, bool M> using StdSetNested = momo::TreeSet<E, momo::TreeTraitsStd<E, KLess, M>, momo::MemManagerStd<SA<E>>,
 	momo::TreeSetItemTraits<E, momo::MemManagerStd<SA<E>>>, TSettings>;
@@ -154,7 +154,7 @@ static void std_scenario(Report& rep, const char* name, uint64_t seed, int srcId
 				try
 				{
 					typename MS::T::node_type node2(std::move(node));
-					try { auto res = dst.insert(std::move(node2)); rec_node(res, rec, 0); } catch (...) { rec(node2); throw; }   // a refused node comes back in res.node
+					try { auto res = dst.insert(std::move(node2)); if (!rec_node(res, rec, 0)) rep.fail(tag + ": a refused node was not returned in insert_return_type::node"); } catch (...) { rec(node2); throw; }   // a refused node comes back in res.node
 					rec(node2);
 				}
 				catch (...) { rec(node); throw; }
@@ -238,7 +238,7 @@ static void std_map_scenario(Report& rep, const char* name, uint64_t seed, int s
 				auto it = src.begin(); size_t pos = size_t(r.range(0, int(src.size()) - 1)); for (size_t i = 0; i < pos; ++i) ++it;
 				auto nh = src.extract(it);
 				auto rec = [&held] (typename MS::T::node_type& nd) { if (!nd.empty()) add(held, nd.key().Value() * 100000 + nd.mapped().Value()); };
-				try { auto res = dst.insert(std::move(nh)); rec_node(res, rec, 0); } catch (...) { rec(nh); throw; }
+				try { auto res = dst.insert(std::move(nh)); if (!rec_node(res, rec, 0)) rep.fail(tag + ": a refused node was not returned in insert_return_type::node"); } catch (...) { rec(nh); throw; }
 				rec(nh);
 			}
 		}
